@@ -608,9 +608,10 @@ struct Req {
 	Hdrs headers;
 	bool viaDic;          // headers passed as a Dic to the constructor (not capitalized by the sender)
 	bool follow;
+	int times;            // how often the same HttpRequest object is passed to Http::request (flag digit, default 1)
 	char kind;            // n b t j f u
 	Str body;
-	Req() : viaDic(false), follow(true), kind('n') {}
+	Req() : viaDic(false), follow(true), times(1), kind('n') {}
 };
 
 // <method-hex> <target-hex> <D|S><F|N> H<n> .. <kind> [bodyspec]
@@ -621,6 +622,7 @@ static bool reqOf(const Toks& t, size_t& i, Req& r)
 	r.target = unhex(t[i + 1]);
 	r.viaDic = t[i + 2][0] == 'D';
 	r.follow = t[i + 2].size() > 1 && t[i + 2][1] == 'F';
+	r.times = t[i + 2].size() > 2 && t[i + 2][2] >= '1' && t[i + 2][2] <= '9' ? t[i + 2][2] - '0' : 1;
 	i += 3;
 	if (!hdrsOf(t, i, r.headers)) return false;
 	if (i >= t.size()) return false;
@@ -647,7 +649,7 @@ static Str clientObs(HttpResponse& res, int port, const Var* wantJson)
 	return o;
 }
 
-static HttpResponse doRequest(const Req& r, int port, Slot* sl)
+static HttpRequest* buildRequest(const Req& r, int port, Slot* sl)
 {
 	String url = String::f("http://127.0.0.1:%d", port) + S(r.target);
 	HttpRequest* q;
@@ -675,6 +677,12 @@ static HttpResponse doRequest(const Req& r, int port, Slot* sl)
 	}
 	default: break;
 	}
+	return q;
+}
+
+static HttpResponse doRequest(const Req& r, int port, Slot* sl)
+{
+	HttpRequest* q = buildRequest(r, port, sl);
 	HttpResponse res = Http::request(*q);
 	delete q;
 	return res;
@@ -750,14 +758,23 @@ static Str opXchg(const Toks& t)
 	if (!ensureServer()) { delete slp; return "err bind"; }
 	if (r.kind == 'j') { sl.wantJson = true; sl.json = Json::decode(S(r.body)); }
 	{ Lock l(gmx); current = slp; }
-	HttpResponse res = doRequest(r, srv->thePort, slp);
 	Var want;
 	if (sl.plan.kind == 'j') want = Json::decode(S(sl.plan.body));
-	Str c = clientObs(res, srv->thePort, sl.plan.kind == 'j' ? &want : 0);
-	Str h;
-	{ Lock l(gmx); current = 0; h = obsOrDash(sl); }
+	// the same HttpRequest object is used `times` times (a client that repeats a request)
+	HttpRequest* q = buildRequest(r, srv->thePort, slp);
+	Str out;
+	for (int k = 0; k < r.times; k++) {
+		{ Lock l(gmx); sl.seen = Seen(); }
+		HttpResponse res = Http::request(*q);
+		Str c = clientObs(res, srv->thePort, sl.plan.kind == 'j' ? &want : 0);
+		Str h;
+		{ Lock l(gmx); h = obsOrDash(sl); }
+		out += (k ? " || " : "") + h + " | " + c;
+	}
+	delete q;
+	{ Lock l(gmx); current = 0; }
 	retireSlot(slp);
-	return h + " | " + c;
+	return out;
 }
 
 // cwire <req>          real client -> raw server: the request bytes on the wire
